@@ -1953,7 +1953,7 @@ int main(int argc, char** argv) {
   ContentPtr snap = b.snapshot();
   std::string before = show(snap, cls);
   b.clear();
-  for (int v = 7; v <= 9; v++) { put(b, cls, v); put(fresh, cls, v); }
+  for (int v = 8; v <= 11; v++) { put(b, cls, v); put(fresh, cls, v); }      // (other values, another count and - for strings - other lengths than before)
   std::string after = show(snap, cls);
   std::string now = show(b.snapshot(), cls), want = show(fresh.snapshot(), cls);
   if (cls == "DatetimeBuilder") { size_t p; while ((p = now.find("at=\"0x")) != std::string::npos) now.erase(p, 20); while ((p = want.find("at=\"0x")) != std::string::npos) want.erase(p, 20); }
